@@ -83,6 +83,9 @@ func (xp xpathImpl) resolvePath(seg *xpath.Path, s *Selection) (*Selection, erro
 		return nil, nil
 	}
 	if meta.IsLeaf(m) {
+		if seg.Next != nil {
+			return nil, fmt.Errorf("nothing can follow leaf '%s' in xpath", seg.Ident)
+		}
 		if seg.Expr == nil {
 			// no comparison, true when leaf has a value
 			v, err := s.GetValue(seg.Ident)
